@@ -26,10 +26,17 @@ def connect(path):
     return database_connection(dbtype='sqlite', db=path)
 
 
-def make_table(db, name, colname, sqltype, values):
+def make_table(db, name, colname, sqltype, values, shape='plain'):
+    """shape 'composite': the column is one member of a two-column PRIMARY KEY (its own values may repeat);
+    'pk': the column alone is declared PRIMARY KEY (only used when its values allow it)."""
     cur = db.connection.cursor()
-    cur.execute('CREATE TABLE %s ("%s" %s)' % (name, colname.replace('"', '""'), sqltype))
-    cur.executemany('INSERT INTO %s VALUES (?)' % name, [(v,) for v in values])
+    q = colname.replace('"', '""')
+    if shape == 'composite':
+        cur.execute('CREATE TABLE %s ("%s" %s, "line_no" INTEGER, PRIMARY KEY ("%s", "line_no"))' % (name, q, sqltype, q))
+        cur.executemany('INSERT INTO %s VALUES (?, ?)' % name, [(v, i + 1) for i, v in enumerate(values)])
+    else:
+        cur.execute('CREATE TABLE %s ("%s" %s)' % (name, q, sqltype))
+        cur.executemany('INSERT INTO %s VALUES (?)' % name, [(v,) for v in values])
     db.connection.commit()
 
 
@@ -51,6 +58,8 @@ def verify(db, table, tddapath):
         v = verify_db_table('sqlite', db, table, tddapath, testing=True)
     failed = []
     for f, fv in v.fields.items():
+        if f == 'line_no':
+            continue            # (the other member of a composite key: not the column under test)
         for k in fv:
             if fv[k] is not None and not bool(fv[k]):
                 failed.append(k)
